@@ -6,7 +6,7 @@ PROP = "C05"
 
 def run(tier):
     QUICK_CFGS = lambda: vfsrun.cfgs([5], [0, 3], range(8)) + vfsrun.cfgs([5], [2], [0, 7]) + vfsrun.cfgs([0], [3], [3, 7]) + vfsrun.cfgs([1, 8], [3], [6]) + \
-                   vfsrun.cfgs([5], [1], [7]) + vfsrun.cfgs([5], [3], [7], shapes=(1, 2)) + vfsrun.cfgs([5], [0], [0, 4], shapes=(3,)) + vfsrun.cfgs([5], [0], [4, 6], shapes=(4,))
+                   vfsrun.cfgs([5], [1], [7]) + vfsrun.cfgs([5], [3], [7], shapes=(1, 2)) + vfsrun.cfgs([5], [0], [0, 4], shapes=(3,)) + vfsrun.cfgs([5], [0], [4, 6], shapes=(4,)) + vfsrun.cfgs([5], [0, 3], [0, 4], shapes=(5,))
     extra = []
     if tier == "quick":
         cfgs = QUICK_CFGS()
@@ -19,14 +19,15 @@ def run(tier):
         extra = [(QUICK_CFGS(), 5)]      # depth 5 on the quick configuration set, depth 4 on the full set: sized to finish (see vfsrun.DEADLINE)
         deep = (vfsrun.cfgs([1, 5], [0, 2, 3], range(8)) + vfsrun.cfgs([0], [0, 3], [1, 2, 3, 5, 6, 7]), 7)
         longs, writes = vfsrun.cfgs([1], [0, 12], [0, 4, 6]), (12, 102)
+    reconf = (vfsrun.cfgs([5], [0, 3], [0, 2, 4, 6]) + vfsrun.cfgs([1], [3], [4, 6]), 5) if tier == 'quick' else (vfsrun.cfgs([1, 5], [0, 2, 3], [0, 2, 4, 6]), 7)
     return vfsrun.hist_check(
         PROP, tier, cfgs, depth, extra_groups=extra,
         rule="every operation history up to the depth bound (normal form: no D;D, no R;R) over writes of framed size {1,L-1,L,L+1,L+2} (or {1,3,6} without a size limit), "
              "records with 2-byte UTF-8 characters and an embedded LF, day changes of 1-2 days and sink restarts, replayed on the real RotatingFileSink from an empty "
-             "directory (plus look-alike foreign files; in one family a directory occupies the first rotated name, so that the rotation's rename fails by itself, in another the name of the first .gz, so that it cannot be created); after EVERY operation the directory is read back (gzip decoded by zlib) and compared with the written byte stream: "
+             "directory (plus look-alike foreign files; in one family a directory occupies the first rotated name, so that the rotation's rename fails by itself, in another the name of the first .gz, so that it cannot be created; in a third the log file is a hidden dot file .app.log); after EVERY operation the directory is read back (gzip decoded by zlib) and compared with the written byte stream: "
              "rotated files in order of appearance + active file must continue the stream exactly, files only disappear under retention, file boundaries are record boundaries, the (date, index) order of rotated names is the rotation order; additionally deeper histories over a reduced alphabet and 12 (102) consecutive compressing rotations; "
              "states = distinct (directory contents, day, records written); distinct_nontrivial = the same count",
-        assumptions=vfsrun.COMMON_ASSUMPTIONS, deep=deep, long_cfgs=longs, long_writes=writes)
+        reconf=reconf, assumptions=vfsrun.COMMON_ASSUMPTIONS, deep=deep, long_cfgs=longs, long_writes=writes)
 
 
 def replay(path):
